@@ -14,4 +14,11 @@ PROPS = {
         "trusted": ["event matching (pkg/event MatchesEventInstance) is abstracted to 'index of the first matching definition'; bitset library modelled as list bool"],
         "assumes": ["an event is identified with the first definition it matches (the Go loop breaks at the first match)"],
     },
+    "C03": {
+        "cmd": "c03",
+        "corr": ["Corr.C03corr"],
+        "trusted": ["the node goroutine's handler is taken as atomic (one goroutine owns counter and parked list); channel hand-off to parked tokens is not modelled",
+                    "engine-level loop program relies on exclusive gateways and variable writes behaving as in C04/C08"],
+        "assumes": ["N >= 1 incoming flows"],
+    },
 }
